@@ -139,3 +139,9 @@ CHECKS["C18"] = dict(
     thorough=dict(shards=16, checks=40, timeout=3400, env={"VERIF_C18_CASES": 40, "GOMEMLIMIT": "4GiB"}),
     assumptions=["the Go race detector sees only races that execute in the sampled interleavings", "reports are attributed by function names of the innermost repository frames of the two accesses; reports without a repository frame are ignored"],
 )
+
+# native coverage-guided fuzz campaigns on top of the thorough tier (same oracles; wall-clock bounded)
+CHECKS["C05"]["thorough"]["fuzz"] = dict(target="FuzzC05", seconds=120)
+CHECKS["C15"]["thorough"]["fuzz"] = dict(target="FuzzC15", seconds=240)
+CHECKS["C19"]["thorough"]["fuzz"] = dict(target="FuzzC19", seconds=120)
+CHECKS["C20"]["thorough"]["fuzz"] = dict(target="FuzzC20", seconds=120)
